@@ -31,7 +31,7 @@ def run(chk):
     n = 0
     for ci in serial.flatten_classes(repo):
         for suffix, verdict, line, tag, detail, witness in serial.analyse_class(repo, ci):
-            if suffix not in ("R5", "R5w"):
+            if suffix not in ("R5", "R5w", "R4"):
                 continue
             n += 1
             site = f"{ci.mod.rel}:{line}"
@@ -89,7 +89,7 @@ def _norm_src(t: str) -> str:
     return CanonStr(t.replace("t.qbits_tensor()", "t"))
 
 
-def moves_rule(chk):
+def moves_rule(chk, r2="C06.R2", r4="C06.R4"):
     repo = chk.repo
     hs = handlers(repo)
     found = 0
@@ -105,15 +105,15 @@ def moves_rule(chk):
                     continue
                 f = handrules.ctor_fields(repo, "QBytesTensor", p.end[1]) if handrules.is_ctor(p.end[1]) else None
                 if f is None:
-                    chk.unknown("C06.R4", site, "QBytes _to_copy does not return a constructor call")
+                    chk.unknown(r4, site, "QBytes _to_copy does not return a constructor call")
                     continue
                 d, s = f["data"], f["scale"]
                 dkw = {k.arg: U(k.value) for k in d.keywords} if isinstance(d, ast.Call) else {}
                 skw = {k.arg: U(k.value) for k in s.keywords} if isinstance(s, ast.Call) else {}
                 ok_d = handrules.is_op_call(d) and [U(a) for a in d.args] == [f"{x}._data"] and dkw.get("dtype") == f"{x}._data.dtype" and dkw.get(None) == kwn
                 ok_s = handrules.is_op_call(s) and [U(a) for a in s.args] == [f"{x}._scale"] and skw.get("dtype") == "dtype" and skw.get(None) == kwn
-                chk.require("C06.R4", f"{h.mi.rel}:{p.end[2]}", ok_d, f"QBytes {h.name}: payload moved as `{U(d)[:70]}` keeping its own dtype, other arguments forwarded", h.name, "payload keeps dtype on move", "q.to(torch.float16): the codes are cast to float16 and no longer match the qtype")
-                chk.require("C06.R4", f"{h.mi.rel}:{p.end[2]}", ok_s, f"QBytes {h.name}: scale moved as `{U(s)[:70]}` with the requested dtype, other arguments forwarded", h.name, "scale takes requested dtype", "q.to(dtype) / q.to(device): dtype or device of the scale not updated")
+                chk.require(r4, f"{h.mi.rel}:{p.end[2]}", ok_d, f"QBytes {h.name}: payload moved as `{U(d)[:70]}` keeping its own dtype, other arguments forwarded", h.name, "payload keeps dtype on move", "q.to(torch.float16): the codes are cast to float16 and no longer match the qtype")
+                chk.require(r4, f"{h.mi.rel}:{p.end[2]}", ok_s, f"QBytes {h.name}: scale moved as `{U(s)[:70]}` with the requested dtype, other arguments forwarded", h.name, "scale takes requested dtype", "q.to(dtype) / q.to(device): dtype or device of the scale not updated")
     for h in hs["qbits"]:
         fn = h.fn
         x = positional_params(fn)[1]
@@ -122,21 +122,21 @@ def moves_rule(chk):
             ps = paths_of(fn)
             refusals = [p for p in ps if p.end[0] == "raise"]
             ok_ref = len(refusals) >= 1 and all("ValueError" in U(p.end[1]) and p.holds(f"dtype == {x}.dtype") is False and p.holds("dtype is None") is False for p in refusals)
-            chk.require("C06.R4", f"{h.mi.rel}:{fn.lineno}", ok_ref, f"QBits {h.name}: a dtype change is refused with ValueError (and nothing else is)", h.name, "dtype refusal", "q4.to(torch.float16) on a float32 low-bit tensor")
+            chk.require(r4, f"{h.mi.rel}:{fn.lineno}", ok_ref, f"QBits {h.name}: a dtype change is refused with ValueError (and nothing else is)", h.name, "dtype refusal", "q4.to(torch.float16) on a float32 low-bit tensor")
             for p in ps:
                 if p.end[0] != "return":
                     continue
                 e = p.end[1]
                 site = f"{h.mi.rel}:{p.end[2]}"
                 if not (isinstance(e, ast.Call) and U(e.func) == "QBitsTensor.create"):
-                    chk.bad("C06.R4", site, h.name, "rebuild through create", f"QBits {h.name} returns `{U(e)[:60]}` instead of QBitsTensor.create(...)", "moving an optimised tensor to/from CUDA")
+                    chk.bad(r4, site, h.name, "rebuild through create", f"QBits {h.name} returns `{U(e)[:60]}` instead of QBitsTensor.create(...)", "moving an optimised tensor to/from CUDA")
                     continue
                 create = repo.cls("QBitsTensor").own("create")
                 f = bind_call(create, e)
                 src = {k: _norm_src(U(v)) for k, v in f.items()}
                 want = {"qtype": f"{x}._qtype", "axis": f"{x}._axis", "group_size": f"{x}._group_size", "size": f"{x}.size()", "stride": f"{x}.stride()"}
                 okf = all(src.get(k) in (v, v.replace("._", ".")) for k, v in want.items())
-                chk.require("C06.R2", site, okf, f"QBits {h.name}: qtype/axis/group_size/size/stride carried from the source: { {k: src.get(k) for k in want} }", h.name, "QBits fields carried", "any low-bit tensor moved between devices")
+                chk.require(r2, site, okf, f"QBits {h.name}: qtype/axis/group_size/size/stride carried from the source: { {k: src.get(k) for k in want} }", h.name, "QBits fields carried", "any low-bit tensor moved between devices")
                 def kwof(c):
                     return {k.arg: U(k.value) for k in c.keywords} if isinstance(c, ast.Call) else {}
                 kwn = fn.args.kwarg.arg if fn.args.kwarg else None
@@ -144,8 +144,8 @@ def moves_rule(chk):
                 ok_d = handrules.is_op_call(d) and _norm_src(U(d.args[0])) == f"{x}._data" and "dtype" not in kwof(d) and kwof(d).get("device") == "device" and kwof(d).get(None) == kwn
                 ok_z = handrules.is_op_call(z) and _norm_src(U(z.args[0])) == f"{x}._zeropoint" and "dtype" not in kwof(z) and kwof(z).get("device") == "device" and kwof(z).get(None) == kwn
                 ok_s = handrules.is_op_call(s) and _norm_src(U(s.args[0])) == f"{x}._scale" and kwof(s).get("dtype") == "dtype" and kwof(s).get("device") == "device" and kwof(s).get(None) == kwn
-                chk.require("C06.R4", site, ok_d and ok_z, f"QBits {h.name}: payload and zero-point moved with device only (no dtype)", h.name, "payload/zeropoint moved without dtype", "q4.to(device, dtype=q4.dtype): integer payload cast to a float dtype")
-                chk.require("C06.R4", site, ok_s, f"QBits {h.name}: scale moved with dtype and device", h.name, "scale moved", "q4.to(device)")
+                chk.require(r4, site, ok_d and ok_z, f"QBits {h.name}: payload and zero-point moved with device only (no dtype)", h.name, "payload/zeropoint moved without dtype", "q4.to(device, dtype=q4.dtype): integer payload cast to a float dtype")
+                chk.require(r4, site, ok_s, f"QBits {h.name}: scale moved with dtype and device", h.name, "scale moved", "q4.to(device)")
         if "aten.detach" in h.ops:
             found += 1
             for p in paths_of(fn):
@@ -154,14 +154,14 @@ def moves_rule(chk):
                 e = p.end[1]
                 site = f"{h.mi.rel}:{p.end[2]}"
                 keeps = isinstance(e, ast.Call) and U(e.func) in (f"{x}.__class__", f"type({x})")
-                chk.require("C06.R4", site, keeps, f"QBits {h.name}: detach rebuilds with the operand's own class ({U(e.func) if isinstance(e, ast.Call) else '?'})", h.name, "detach keeps class", "detach (Parameter construction) of an optimised subclass")
+                chk.require(r4, site, keeps, f"QBits {h.name}: detach rebuilds with the operand's own class ({U(e.func) if isinstance(e, ast.Call) else '?'})", h.name, "detach keeps class", "detach (Parameter construction) of an optimised subclass")
                 if keeps:
                     init = repo.method(repo.cls("QBitsTensor"), "__init__")[1]
                     f = bind_call(init, e, skip_first=1)
                     want = {"qtype": f"{x}._qtype", "axis": f"{x}._axis", "group_size": f"{x}._group_size", "size": f"{x}.size()", "stride": f"{x}.stride()", "data": f"op({x}._data)", "scale": f"op({x}._scale)", "zeropoint": f"op({x}._zeropoint)"}
                     okf = f is not None and all(U(f[k]) in (v, v.replace("._q", ".q").replace("._a", ".a")) for k, v in want.items())
-                    chk.require("C06.R2", site, okf, f"QBits {h.name}: all fields carried, payload/scale/zero-point through op only", h.name, "QBits detach fields", "Parameter(q4) / q4.detach()")
-    chk.floor("C06.R4", found, 3, "move/detach handlers")
+                    chk.require(r2, site, okf, f"QBits {h.name}: all fields carried, payload/scale/zero-point through op only", h.name, "QBits detach fields", "Parameter(q4) / q4.detach()")
+    chk.floor(r4, found, 3, "move/detach handlers")
 
 
 def quantizer_geometry(chk):
